@@ -192,6 +192,35 @@ theorem C17_source_mle_simple_stationary (c : List ℝ) (cmin : ℝ) (hn : 0 < (
   rw [C17_source_mle_simple]
   exact C17_mle_simple_stationary _ _ hn hS α hα
 
+/-! ### `method="exact"`: what the optimiser is given (SciPy's `zeta` and `minimize_scalar` are external: `zeta` is a parameter here, the
+optimiser's answer is checked numerically by the correspondence) -/
+
+/-- `_discrete_loglikelihood` of the current source is −n·ln ζ(α, xmin) − α·Σ ln c over the counts ≥ xmin … -/
+theorem C17_source_loglik (zeta : ℝ → ℝ → ℝ) (c : List ℝ) (α cmin : ℝ) :
+    Generated.discrete_loglikelihood zeta c α cmin
+      = -((kept c cmin).length : ℝ) * Real.log (zeta α cmin) - α * ((kept c cmin).map Real.log).sum :=
+  gen_loglik_eq zeta c α cmin
+
+/-- … which is the log-likelihood of those counts under the discrete power law p(v) = v^(−α) / ζ(α, cmin) (any positive normaliser) -/
+theorem C17_source_loglik_is_loglikelihood (zeta : ℝ → ℝ → ℝ) (c : List ℝ) (α cmin : ℝ) (hc : 0 < cmin) (hZ : 0 < zeta α cmin) :
+    Generated.discrete_loglikelihood zeta c α cmin
+      = ((kept c cmin).map fun v => Real.log (v ^ (-α) / zeta α cmin)).sum := by
+  rw [gen_loglik_eq]; exact discreteLogLik_eq_sum_log_pmf zeta c α cmin hc hZ
+
+/-- hence an exponent that maximises the translated objective over the bounds maximises the likelihood (the product of the
+probability masses of the kept counts) over the same bounds -/
+theorem C17_source_exact_maximiser (zeta : ℝ → ℝ → ℝ) (c : List ℝ) (cmin lo hi a : ℝ) (hc : 0 < cmin)
+    (hZ : ∀ α, lo ≤ α → α ≤ hi → 0 < zeta α cmin) (ha : lo ≤ a ∧ a ≤ hi)
+    (hmax : ∀ α, lo ≤ α → α ≤ hi →
+      Generated.discrete_loglikelihood zeta c α cmin ≤ Generated.discrete_loglikelihood zeta c a cmin) :
+    ∀ α, lo ≤ α → α ≤ hi →
+      ((kept c cmin).map fun v => v ^ (-α) / zeta α cmin).prod ≤ ((kept c cmin).map fun v => v ^ (-a) / zeta a cmin).prod := by
+  intro α h1 h2
+  rw [likelihood_eq_exp_logLik zeta c α cmin hc (hZ α h1 h2), likelihood_eq_exp_logLik zeta c a cmin hc (hZ a ha.1 ha.2)]
+  have := hmax α h1 h2
+  rw [gen_loglik_eq, gen_loglik_eq] at this
+  exact Real.exp_le_exp.mpr this
+
 /-- non-vacuity: a draw list meeting the hypotheses -/
 example : ∀ x ∈ ([0, 1/2, 3/4] : List ℝ), 0 ≤ x ∧ x < 1 := by
   intro x hx
